@@ -137,7 +137,10 @@ impl SimpleMdnsResponder {
                                 scope.socket_address()
                             };
 
-                            sender_socket.send_to(&reply, reply_addr)?;
+                            // a reply that can't be sent must not stop the responder
+                            if let Err(err) = sender_socket.send_to(&reply, reply_addr) {
+                                log::error!("Failed to send reply {err}");
+                            }
                         }
                         None => {
                             continue;
